@@ -625,3 +625,106 @@ def _cls_name(cls: str) -> str:
 
 def _sg(s: str) -> str:
     return {"neg": "negative", "zero": "zero", "pos": "positive"}[s]
+
+
+# ------------------------------------------------------------------ R-ENFORCE-ENTAIL
+def _bound_ref(prog: Program, fn: FuncInfo, e: ast.expr) -> Optional[Tuple[str, str]]:
+    """(row expression text, 'MIN'|'MAX') for a subscript like x[q, MAX] / y[MIN]."""
+    if not isinstance(e, ast.Subscript):
+        return None
+    sl = e.slice
+    elts = list(sl.elts) if isinstance(sl, ast.Tuple) else [sl]
+    last = elts[-1]
+    v = prog.fold(fn.module, last)
+    if v not in (prog.C("MIN"), prog.C("MAX")) or not isinstance(last, (ast.Name, ast.Constant)):
+        return None
+    row = ast.unparse(e.value) + "[" + ", ".join(ast.unparse(x) for x in elts[:-1]) + "]"
+    return row, ("MIN" if v == prog.C("MIN") else "MAX")
+
+
+def _plus_const(e: ast.expr) -> Tuple[ast.expr, int]:
+    if isinstance(e, ast.BinOp) and isinstance(e.op, (ast.Add, ast.Sub)) and isinstance(e.right, ast.Constant) and isinstance(e.right.value, int):
+        return e.left, (e.right.value if isinstance(e.op, ast.Add) else -e.right.value)
+    return e, 0
+
+
+def rule_enforce_entail(ctx: Ctx, prog: Program) -> None:
+    """A block that enforces  a + k <= b  on two variables (a.MAX = min(a.MAX, b.MAX - k); b.MIN = max(b.MIN, a.MIN + k)) and then answers
+    'entailed' on a comparison of a.MAX with b.MIN states two beliefs about the same relation; they must agree: the relation holds on the
+    whole box iff a.MAX + k <= b.MIN.  `a.MAX <= b.MIN` after enforcing the strict relation (k = 1) declares entailment while a = b is
+    still possible.  (Contradiction between two beliefs in one block: no per-constraint specification is consulted.)"""
+    ctx.rule("R-ENFORCE-ENTAIL")
+    PE = "PROP_ENTAILMENT"
+    n = 0
+    seen_fns: Set[str] = set()
+    work: List[FuncInfo] = [c for _, c, _ in propagator_triples(prog)]
+    while work:
+        fn = work.pop()
+        if fn.fq in seen_fns:
+            continue
+        seen_fns.add(fn.fq)
+        for node in ast.walk(fn.node):
+            if isinstance(node, ast.Call) and isinstance(node.func, ast.Name):
+                r = prog.resolve(fn.module, node.func.id)
+                if r and r[0] == "func" and r[1].module == fn.module:
+                    work.append(r[1])
+        blocks: List[List[ast.stmt]] = []
+        for node in ast.walk(fn.node):
+            for attr in ("body", "orelse"):
+                b = getattr(node, attr, None)
+                if isinstance(b, list) and b and isinstance(b[0], ast.stmt):
+                    blocks.append(b)
+        for block in blocks:
+            enforced: Dict[Tuple[str, str], int] = {}  # (a row, b row) -> k  from  a.MAX = min(a.MAX, b.MAX - k)
+            enforced2: Dict[Tuple[str, str], int] = {}  # from b.MIN = max(b.MIN, a.MIN + k)
+            for s in block:
+                if isinstance(s, ast.Assign) and len(s.targets) == 1 and isinstance(s.value, ast.Call) and isinstance(s.value.func, ast.Name) \
+                        and s.value.func.id in ("min", "max") and len(s.value.args) == 2:
+                    tgt = _bound_ref(prog, fn, s.targets[0])
+                    if tgt is None:
+                        continue
+                    args = s.value.args
+                    other = [a for a in args if ast.unparse(a) != ast.unparse(s.targets[0])]
+                    if len(other) != 1:
+                        continue
+                    base, k = _plus_const(other[0])
+                    ob = _bound_ref(prog, fn, base)
+                    if ob is None:
+                        continue
+                    if s.value.func.id == "min" and tgt[1] == "MAX" and ob[1] == "MAX":
+                        enforced[(tgt[0], ob[0])] = -k  # a.MAX <= b.MAX - k'
+                    if s.value.func.id == "max" and tgt[1] == "MIN" and ob[1] == "MIN":
+                        enforced2[(ob[0], tgt[0])] = k  # b.MIN >= a.MIN + k
+                tests: List[Tuple[ast.expr, int]] = []
+                if isinstance(s, ast.Return) and isinstance(s.value, ast.IfExp) and isinstance(s.value.body, ast.Name) and s.value.body.id == PE:
+                    tests.append((s.value.test, s.lineno))
+                if isinstance(s, ast.If) and any(isinstance(x, ast.Return) and isinstance(x.value, ast.Name) and x.value.id == PE for x in s.body):
+                    tests.append((s.test, s.lineno))
+                for t, line in tests:
+                    if not (isinstance(t, ast.Compare) and len(t.ops) == 1):
+                        continue
+                    l, r_ = _bound_ref(prog, fn, t.left), _bound_ref(prog, fn, t.comparators[0])
+                    if l is None or r_ is None:
+                        continue
+                    op = type(t.ops[0])
+                    # normalise to  a.MAX (op) b.MIN
+                    if l[1] == "MAX" and r_[1] == "MIN" and op in (ast.Lt, ast.LtE):
+                        a, b, strict = l[0], r_[0], op is ast.Lt
+                    elif l[1] == "MIN" and r_[1] == "MAX" and op in (ast.Gt, ast.GtE):
+                        a, b, strict = r_[0], l[0], op is ast.Gt
+                    else:
+                        continue
+                    ks = [d[(a, b)] for d in (enforced, enforced2) if (a, b) in d]
+                    if not ks:
+                        continue
+                    n += 1
+                    k = max(ks)
+                    guaranteed = 1 if strict else 0  # the test establishes a.MAX + guaranteed <= b.MIN
+                    if guaranteed >= k:
+                        ctx.ok("R-ENFORCE-ENTAIL", f"{fn.name}: enforces {a} + {k} <= {b}, entailed under {ast.unparse(t)}", sample={"line": line, "k": k})
+                    else:
+                        ctx.violation("R-ENFORCE-ENTAIL", fn.path, fn.name, f"entail-weaker-than-enforced:{a}:{b}", f"{fn.path}:{line}",
+                                      f"{fn.name} enforces {a} + {k} <= {b} in this block but answers 'entailed' as soon as {ast.unparse(t)}: with "
+                                      f"{a}.max == {b}.min the box still contains tuples violating the relation it has just enforced; the constraint is "
+                                      "then disabled for the subtree and violating assignments are reported")
+    ctx.floor("R-ENFORCE-ENTAIL:blocks", n, 4)
